@@ -576,6 +576,8 @@ struct G {
     RCP<const Basic> tsq()
     {
         RCP<const Basic> a = r.coin(2, 3) ? sym() : lin(1);
+        if (is_a_Number(*a)) // e.g. x - x: the patterns divide by the argument
+            a = sym();
         RCP<const Basic> inner;
         switch (r.below(8)) {
             case 0:
@@ -616,6 +618,17 @@ void emit_op(const std::string &op, const RCP<const Basic> &e, const std::string
     std::string d = vsexp::dump(e);
     if (has_inf(d) || d.size() > maxlen)
         return;
+    if (op == "ri") {
+        // constant expressions sitting on a pole (coth(I*pi)) have no value: outside the property
+        try {
+            nev::Env env;
+            if (!nev::finite(nev::ev(*e, env)))
+                return;
+        } catch (const nev::Sing &) {
+            return;
+        } catch (const nev::Unsup &) {
+        }
+    }
     emit(op + " " + d, tag);
 }
 } // namespace
